@@ -17,12 +17,17 @@ import (
 )
 
 type c04Fault struct {
-	kind string // "none" | "rdcut" | "wrfail"
-	at   int
-	err  bool // rdcut: error instead of EOF
+	kind     string // "none" | "rdcut" | "wrfail"
+	at       int
+	err      bool // rdcut: error instead of EOF
+	halfOpen bool // the transport's Close is a no-op (writes keep succeeding); the receiver's broadcast is stalled for a moment
+	// so that callers arrive exactly while it runs (the interleaving of the shutdown with callers registering new requests)
 	mini bool // one goroutine, a fixed sequence of single-packet operations: the reply stream is the same in every run,
 	// so that EVERY byte position of it (length prefix, type byte, id, body of every reply kind) can be cut
 }
+
+// c04OnBcast, when set, is called at every delivery of broadcastErr (hook cc.deliver.bcast, under the inflight mutex).
+var c04OnBcast func()
 
 // case numbering for crash attribution (the driver restarts the sweep behind a case that killed the process)
 var c04Case int
@@ -43,11 +48,21 @@ func c04Session(t testing.TB, tr *tracer, f c04Fault, variant int) (int, int) {
 	if f.kind != "none" && c04Case <= c04Skip {
 		return 0, 0
 	}
-	tr.reset(kv{"kind": "connloss", "fault": f.kind, "at": f.at, "err": f.err, "variant": variant, "mini": f.mini, "case": c04Case})
+	tr.reset(kv{"kind": "connloss", "fault": f.kind, "at": f.at, "err": f.err, "variant": variant, "mini": f.mini, "halfopen": f.halfOpen, "case": c04Case})
 	tr.flush()                    // a crash of this process is attributed to this case
 	base := len(sftpGoroutines()) // goroutines leaked by earlier (already reported) sessions
 	pr := newPeer(t, tr)
 	pr.fileSize = 650
+	pr.halfOpen = f.halfOpen
+	bcastStarted := make(chan struct{})
+	var bonce sync.Once
+	c04OnBcast = nil
+	if f.halfOpen {
+		c04OnBcast = func() {
+			bonce.Do(func() { close(bcastStarted); time.Sleep(5 * time.Millisecond) })
+		}
+		defer func() { c04OnBcast = nil }()
+	}
 	switch f.kind {
 	case "rdcut":
 		var e error
@@ -237,9 +252,16 @@ func c04Session(t testing.TB, tr *tracer, f c04Fault, variant int) (int, int) {
 	// g4, g5: callers that register around / after the failure
 	for g := 4; g <= 5; g++ {
 		worker(g, func(g int, n *int) {
-			select {
-			case <-reached:
-			case <-time.After(300 * time.Millisecond):
+			if f.halfOpen {
+				select {
+				case <-bcastStarted: // the receiver is inside broadcastErr right now
+				case <-time.After(300 * time.Millisecond):
+				}
+			} else {
+				select {
+				case <-reached:
+				case <-time.After(300 * time.Millisecond):
+				}
 			}
 			for k := 0; k < 3; k++ {
 				single(g, n, k, "late")
@@ -350,7 +372,15 @@ var c04Failures int
 func TestVerif_ConnLoss(t *testing.T) {
 	tr := newTracer(t)
 	ids := &chanIDs{}
-	installHook(t, clientHook(tr, ids, nil))
+	base := clientHook(tr, ids, nil)
+	installHook(t, func(point string, a, b uint64) {
+		base(point, a, b)
+		if point == "cc.deliver.bcast" {
+			if h := c04OnBcast; h != nil {
+				h()
+			}
+		}
+	})
 	variants := []int{0, 1}
 	if vThorough() {
 		variants = []int{0, 1, 2, 3, 4, 5}
@@ -385,6 +415,14 @@ func TestVerif_ConnLoss(t *testing.T) {
 				break
 			}
 			c04Session(t, tr, c04Fault{kind: "rdcut", at: k, err: k%2 == 0}, v)
+		}
+		// a half-open link (Close does not stop writes), with callers arriving while the receiver broadcasts the loss
+		hstride := 40
+		if vThorough() {
+			hstride = 7
+		}
+		for k := 20 + int(vSeed())%hstride; k <= L && c04Failures < 3; k += hstride {
+			c04Session(t, tr, c04Fault{kind: "rdcut", at: k, err: k%2 == 1, halfOpen: true}, v)
 		}
 		wstride := 2
 		if vThorough() {
